@@ -1200,6 +1200,11 @@ func (c *c09ctx) convertOK(st *pstate, recv, t *Sym) (bool, string) {
 	if tk.SubsetOf(ks(kString)) && rk.SubsetOf(ks(kString)) && rk != 0 {
 		return true, ""
 	}
+	if rk == 0 && tk != 0 {
+		// no kind at all is left for the source on this path: the facts collected along it contradict each other (a kind
+		// test restated through a predicate helper and again inline) — the site is not reached this way
+		return true, ""
+	}
 	return false, fmt.Sprintf("reflect.Value.Convert: convertibility not proven (no ConvertibleTo guard on the same pair; source kinds %s, target kinds %s)", rk, tk)
 }
 
